@@ -112,6 +112,17 @@ class SessTrace:
         self.stray = []           # tokens outside any event
         self.freed = False
         self.pending_dl = False
+        self.snaps = {}           # index of step -> snapshot string
+
+    def snapshot(self, tok):
+        """tok = 'st:<state>:<type>:<dq>:<sq>:<ca>:<tls>' after an op; belongs to the last step"""
+        f = tok.split(":")
+        if len(f) < 7 or not self.steps or self.freed:
+            return
+
+        def ids(x):
+            return "-" if x == "-" else ".".join(y[1:] for y in x.split(","))
+        self.snaps[len(self.steps) - 1] = "%s/%s/%s/%s/%s/%s" % (f[1], f[2], ids(f[3]), ids(f[4]), f[5], f[6])
 
     def start(self, ev):
         self.cur = [ev, []]
@@ -194,7 +205,8 @@ class SessTrace:
     def line(self, proto):
         def j(l):
             return ",".join(str(x) for x in l) or "-"
-        steps = ["%s=%s" % (e, ",".join(o)) for e, o in self.steps]
+        steps = ["%s=%s%s" % (e, ",".join(o), ("@" + self.snaps[i]) if i in self.snaps else "")
+                 for i, (e, o) in enumerate(self.steps)]
         return " ".join(["tgs", proto, self.role, str(self.nstart), j(self.hs), j(self.more),
                          j(self.tx), j(self.rx), j(self.ck)] + steps)
 
@@ -287,6 +299,12 @@ def sessions_of(case, trace):
             if t.startswith("a.rel:"):
                 if cli and t.endswith(":1"):
                     cli.freed = True
+                continue
+            if t.startswith("c.st:") and cli:
+                cli.snapshot(t[2:])
+                continue
+            if t.startswith("s.st:") and srv:
+                srv.snapshot(t[2:])
                 continue
             if t.startswith("c.") and cli:
                 if cli.freed and not (cli.cur and cli.cur[0] in ("L", "F")):
